@@ -104,7 +104,10 @@ type escPlan struct {
 	DecRef         func(in []byte) ([]byte, bool)  // the reference decoder it is validated against
 	DecGen         func(r *RNG, maxLen int) []byte // extra inputs for the decoder validation
 	DecSkip        func(in []byte) bool            // inputs outside the domain both decoders define
-	ScalarForms    []string                        // forms run on every Unicode scalar value
+	Dec2Fn         int                             // a second decoder to validate (CSS)
+	Dec2Ref        func(in []byte) ([]byte, bool)
+	Dec2Gen        func(r *RNG, maxLen int) []byte
+	ScalarForms    []string // forms run on every Unicode scalar value
 	Gen            func(r *RNG, maxLen int) []byte
 	Extra          func(add func(f EscForm, carrier string, in []byte))
 }
@@ -265,52 +268,21 @@ func runEscaperProperty(o *Options, prop string, forms []EscForm, oracle func(Es
 			}
 		}
 	}
-	// validation of the specification-side decoder against the reference decoder
-	if plan.DecFn != 0 && o.Replay == "" {
-		var dins [][]byte
-		for i, c := range cases {
-			if i%7 == 0 && c.Obs.ErrClass() == "OK" {
-				dins = append(dins, c.Obs.Out)
-			}
-		}
-		n := 2000
-		if o.Tier == "thorough" {
-			n = 50000
-		}
-		for i := 0; i < n; i++ {
-			if plan.DecGen != nil {
-				dins = append(dins, plan.DecGen(rng, 24))
-			} else {
-				dins = append(dins, gen(rng, 24))
-			}
-		}
-		dreqs := make([]EReq, len(dins))
-		for i, in := range dins {
-			dreqs[i] = EReq{Fn: plan.DecFn, Itr: 0, In: in}
-		}
-		dout, dok, err := RunDriver(o.Driver, dreqs)
-		if err != nil {
+	if o.Replay == "" {
+		if err := runMulti(o, res, rng, forms, gen, plan.MaxLen, plan.CorrName); err != nil {
 			res.InfraError = err.Error()
 			return res
 		}
-		bad := 0
-		for i, in := range dins {
-			if plan.DecSkip != nil && plan.DecSkip(in) {
-				continue
-			}
-			want, wok := plan.DecRef(in)
-			if wok != dok[i] || (wok && !bytes.Equal(want, dout[i])) {
-				bad++
-				if bad <= 3 {
-					res.Notes = append(res.Notes, fmt.Sprintf("DECODER-SPEC-MISMATCH on %q: Gallina %q/%v reference %q/%v", in, dout[i], dok[i], want, wok))
-				}
-			}
+	}
+	// validation of the specification-side decoders against the reference decoders
+	if o.Replay == "" {
+		if err := validateDecoder(o, res, rng, plan.DecFn, plan.DecRef, plan.DecGen, plan.DecSkip, gen, plan.CorrName, cases, true); err != nil {
+			res.InfraError = err.Error()
+			return res
 		}
-		res.Histogram["decoder-spec-validation:cases"] = len(dins)
-		res.Histogram["decoder-spec-validation:mismatches"] = bad
-		if bad > 0 {
-			res.AddViolation(&Violation{Kind: "no-failing-input-found", Class: "decoder-spec", Lemma: "Spec decoder vs reference decoder (" + plan.CorrName + ")",
-				What: "the Gallina decoder that states the property disagrees with the reference decoder: " + res.Notes[len(res.Notes)-1], Replay: map[string]any{"notes": res.Notes}})
+		if err := validateDecoder(o, res, rng, plan.Dec2Fn, plan.Dec2Ref, plan.Dec2Gen, plan.DecSkip, gen, plan.CorrName, cases, false); err != nil {
+			res.InfraError = err.Error()
+			return res
 		}
 	}
 	// a mismatch whose own case satisfies the oracle is only reported as
@@ -368,4 +340,57 @@ func lenBucket(n int) string {
 // escClass names the decidable class of an oracle failure (used by known_findings.txt guards).
 func escClass(prop string, c *escCase, ofail string) string {
 	return "escaper:" + c.Form.Name
+}
+
+// validateDecoder differential-tests a Gallina decoder (through the driver) against its reference.
+func validateDecoder(o *Options, res *Result, rng *RNG, fn int, ref func([]byte) ([]byte, bool), dgen func(*RNG, int) []byte,
+	skip func([]byte) bool, gen func(*RNG, int) []byte, corr string, cases []*escCase, useImage bool) error {
+	if fn == 0 {
+		return nil
+	}
+	var dins [][]byte
+	for i, c := range cases {
+		if i%7 == 0 && c.Obs.ErrClass() == "OK" {
+			dins = append(dins, c.Obs.Out)
+		}
+	}
+	n := 2000
+	if o.Tier == "thorough" {
+		n = 50000
+	}
+	for i := 0; i < n; i++ {
+		if dgen != nil {
+			dins = append(dins, dgen(rng, 24))
+		} else {
+			dins = append(dins, gen(rng, 24))
+		}
+	}
+	dreqs := make([]EReq, len(dins))
+	for i, in := range dins {
+		dreqs[i] = EReq{Fn: fn, Itr: 0, In: in}
+	}
+	dout, dok, err := RunDriver(o.Driver, dreqs)
+	if err != nil {
+		return err
+	}
+	bad := 0
+	for i, in := range dins {
+		if skip != nil && skip(in) {
+			continue
+		}
+		want, wok := ref(in)
+		if wok != dok[i] || (wok && !bytes.Equal(want, dout[i])) {
+			bad++
+			if bad <= 3 {
+				res.Notes = append(res.Notes, fmt.Sprintf("DECODER-SPEC-MISMATCH fn %d on %q: Gallina %q/%v reference %q/%v", fn, in, dout[i], dok[i], want, wok))
+			}
+		}
+	}
+	res.Histogram[fmt.Sprintf("decoder-spec-validation(fn%d):cases", fn)] = len(dins)
+	res.Histogram[fmt.Sprintf("decoder-spec-validation(fn%d):mismatches", fn)] = bad
+	if bad > 0 {
+		res.AddViolation(&Violation{Kind: "no-failing-input-found", Class: "decoder-spec", Lemma: "Spec decoder vs reference decoder (" + corr + ")",
+			What: "the Gallina decoder that states the property disagrees with the reference decoder: " + res.Notes[len(res.Notes)-1], Replay: map[string]any{"notes": res.Notes}})
+	}
+	return nil
 }
